@@ -3,7 +3,7 @@
    booster::aio::event_loop_impl at lock granularity: [run_labels ls st0] is the state after ANY interleaving
    [ls] of critical sections executed by any number of threads (labels are total: a label that is not enabled,
    or that re-uses a handler id, is a no-op), so a statement quantified over [ls] holds for every schedule. *)
-From CppcmsV Require Import Base.Tac C17.Defs C17.Proofs C17.Proofs2 C17.Proofs3 C17.Proofs4 C17.Proofs5 C17.Proofs6 C17.Proofs7 C17.Solo C17.Pool2 C17.CancelIo C17.CompDefs C17.Comp C17.Fair C17.Fair2 C17.Fair3 C17.PoolFair C17.ReactorDefs C17.Reactor C17.TimerObjDefs C17.TimerObj.
+From CppcmsV Require Import Base.Tac C17.Defs C17.Proofs C17.Proofs2 C17.Proofs3 C17.Proofs4 C17.Proofs5 C17.Proofs6 C17.Proofs7 C17.Solo C17.Pool2 C17.CancelIo C17.CompDefs C17.Comp C17.Fair C17.Fair2 C17.Fair3 C17.PoolFair C17.ReactorDefs C17.Reactor C17.TimerObjDefs C17.TimerObj C17.DeviceDefs C17.Device.
 Local Open Scope N_scope.
 
 (* 1. conservation: every handler id ever accepted by post / set_io_event / set_timer_event occurs exactly once in
@@ -570,3 +570,40 @@ Example timer_object_nonvacuous : let c := trun false sched5 tst0 in
   (eid c = Some 2 /\ t_mem (timers (tbase c)) 2 = true /\ eid (tstep false TCancel c) = None /\
    In (Run 2 Canceled) (queue (tbase (tstep false TCancel c))) /\ t_mem (timers (tbase (tstep false TCancel c))) 2 = false)%type.
 Proof. exact real_code_same_schedule. Qed.
+
+(* 10. basic_io_device (DeviceDefs.v): fd_, owner_ and the OS state of the descriptor over the loop model.  close() cancels the armed
+       waits in BOTH ownership modes - attach(fd) / assign(fd) replace the descriptor through close() - and closes / forgets the descriptor
+       only if the device owns it; the variant with the merged early return (fd_ == invalid_socket || !owner_) is refuted *)
+Theorem close_cancels_armed_reader_in_both_ownership_modes : forall b i c h,
+  reach (dbase c) -> lpc (dbase c) = Idle -> stop (dbase c) = false -> queue (dbase c) = [] ->
+  (0 <= dfd c)%Z -> rd (fd_get (fdmap (dbase c)) (dfd c)) = Some h ->
+  let s1 := dbase (d_close false c) in
+  let s2 := run_one_solo b s1 in
+  let s3 := run_one_solo b (step (LPollEnd [] i) s2) in
+  In (h, Canceled, clock (dbase c)) (log s2) \/ In (h, Canceled, clock (dbase c)) (log s3).
+Proof. exact close_cancels_reader. Qed.
+Print Assumptions close_cancels_armed_reader_in_both_ownership_modes.
+Theorem close_cancels_armed_writer_in_both_ownership_modes : forall b i c h,
+  reach (dbase c) -> lpc (dbase c) = Idle -> stop (dbase c) = false -> queue (dbase c) = [] ->
+  (0 <= dfd c)%Z -> wr (fd_get (fdmap (dbase c)) (dfd c)) = Some h ->
+  let s1 := dbase (d_close false c) in
+  let s2 := run_one_solo b s1 in
+  let s3 := run_one_solo b (step (LPollEnd [] i) s2) in
+  In (h, Canceled, clock (dbase c)) (log s2) \/ In (h, Canceled, clock (dbase c)) (log s3).
+Proof. exact close_cancels_writer. Qed.
+Print Assumptions close_cancels_armed_writer_in_both_ownership_modes.
+Theorem close_closes_the_descriptor_only_if_owned : forall c, dfd c <> (-1)%Z ->
+  ((downer c = true -> dfd (d_close false c) = (-1)%Z /\ dopen (d_close false c) = zrem (dopen c) (dfd c)) /\
+   (downer c = false -> dfd (d_close false c) = dfd c /\ dopen (d_close false c) = dopen c))%type.
+Proof. exact d_close_descriptor. Qed.
+Print Assumptions close_closes_the_descriptor_only_if_owned.
+Theorem attach_and_assign_go_through_close : forall fd c,
+  (dbase (d_attach false fd c) = dbase (d_close false c) /\ dbase (d_assign false fd c) = dbase (d_close false c) /\
+   downer (d_attach false fd c) = false /\ downer (d_assign false fd c) = true /\ dfd (d_attach false fd c) = fd /\ dfd (d_assign false fd c) = fd)%type.
+Proof. exact attach_assign_base. Qed.
+Print Assumptions attach_and_assign_go_through_close.
+Theorem merged_early_return_variant_refuted : exists c,
+  (downer c = false /\ rd (fd_get (fdmap (dbase c)) (dfd c)) = Some 1%N /\ reach (dbase c) /\
+   d_close true c = c /\ In (Run 1%N Canceled) (queue (dbase (d_close false c))))%type.
+Proof. exact merged_variant_refuted. Qed.
+Print Assumptions merged_early_return_variant_refuted.
